@@ -15,7 +15,7 @@ RULE = ("Compositions are generated as letter->count tables satisfying premise 1
         "(protein-only letter, filler letter) pairs. Non-trivial = >= 2 distinct letters; distinct by composition+layout hash.")
 ASSUMPTIONS = ["compositions satisfying neither premise are not judged",
                "letters kalign's readers drop (non-alphabetic) are not residues"]
-BUDGET = {"quick": dict(examples=220, workers=12, seconds=60), "thorough": dict(examples=2500, workers=16, seconds=480)}
+BUDGET = {"quick": dict(examples=500, workers=12, seconds=60), "thorough": dict(examples=2500, workers=16, seconds=480)}
 
 PONLY = "DEFHIKLMPQRSVWY"
 ALL = "ABCDEFGHIKLMNPQRSTVWYXZUJO"
